@@ -100,6 +100,7 @@ pub struct Case {
     pub rawskip: bool,
     /// `reenter k`: the k-th call of the wrapped iterator's `next()` queries the concurrent iterator around it
     pub reenter: Option<usize>,
+    pub reenter_skip: bool,
     /// `zstiter`: the wrapped iterator is a zero-sized type (kind iter)
     pub zstiter: bool,
     /// `relocate k`: before the k-th operation of thread 0 (single-thread cases) the iterator value is moved to another address
@@ -402,6 +403,7 @@ struct Partial {
     clonepoint: bool,
     rawskip: bool,
     reenter: Option<usize>,
+    reenter_skip: bool,
     zstiter: bool,
     relocate: Option<usize>,
     clonefrom: bool,
@@ -465,6 +467,7 @@ fn finish(p: Partial) -> Result<Case, String> {
         clonepoint: p.clonepoint,
         rawskip: p.rawskip,
         reenter: p.reenter,
+        reenter_skip: p.reenter_skip,
         zstiter: p.zstiter,
         relocate: p.relocate,
         clonefrom: p.clonefrom,
@@ -557,6 +560,7 @@ pub fn parse_cases(text: &str) -> Result<Vec<Case>, String> {
                     .get(1)
                     .ok_or_else(|| format!("line {ln}: reenter <k>"))?;
                 p.reenter = Some(num::<usize>(k, "reenter", ln)?);
+                p.reenter_skip = toks.get(2).copied() == Some("skip");
             }
             "zstiter" => {
                 p.zstiter = true;
